@@ -379,7 +379,46 @@ func checkTables(run *vc.Run) {
 					run.Violation("http-error-response-fields", fmt.Sprintf("NewErrorResponse lost fields: %+v", st), w)
 				}
 			}
-			// gRPC
+			// gRPC: the service error itself, and the same error reached through the standard unwrapping
+			// (the encoded detail carries the flags either way: the code must agree with them)
+			for _, carrier := range []string{"wrapped", "double-wrapped", "joined"} {
+				var cerr error
+				switch carrier {
+				case "wrapped":
+					cerr = fmt.Errorf("wrapped: %w", se)
+				case "double-wrapped":
+					cerr = fmt.Errorf("outer: %w", fmt.Errorf("inner: %w", se))
+				case "joined":
+					cerr = errors.Join(errors.New("plain sibling"), se)
+				}
+				cenc := goagrpc.EncodeError(cerr)
+				run.Eval(1)
+				run.Seen("grpc_rows", fmt.Sprint(name, m, carrier))
+				cst, ok := status.FromError(cenc)
+				if !ok {
+					run.Violation("grpc-encode-not-status carrier="+carrier, "EncodeError did not return a status error", w)
+					continue
+				}
+				want := map[codes.Code]bool{}
+				if !to && !te && !fa {
+					want[codes.Unknown] = true
+				}
+				if fa {
+					want[codes.Internal] = true
+				}
+				if to {
+					want[codes.DeadlineExceeded] = true
+				}
+				if te {
+					want[codes.Unavailable] = true
+				}
+				if resp, isResp := goagrpc.DecodeError(cenc).(*goapb.ErrorResponse); isResp && (resp.Timeout != to || resp.Temporary != te || resp.Fault != fa || resp.Name != name) {
+					// the detail does not describe the wrapped service error: the carrier was treated as a plain error
+					run.Violation(fmt.Sprintf("grpc-wrapped-error-not-recognised carrier=%s", carrier), fmt.Sprintf("detail %+v for a %s service error with flags %d", resp, carrier, m), w)
+				} else if !want[cst.Code()] {
+					run.Violation(fmt.Sprintf("grpc-code-table flags=%d carrier=%s", m, carrier), fmt.Sprintf("code=%v not in the set implied by the flags the encoded detail carries", cst.Code()), w)
+				}
+			}
 			enc := goagrpc.EncodeError(se)
 			run.Eval(1)
 			run.Seen("grpc_rows", fmt.Sprint(name, m))
